@@ -694,6 +694,37 @@ impl GRLParser {
         out
     }
 
+    /// Split `text` at every `separator` that stands outside string literals
+    /// and outside `[...]` array literals.
+    fn split_outside_literals(text: &str, separator: char) -> Vec<&str> {
+        let mut parts = Vec::new();
+        let mut quote: Option<char> = None;
+        let mut brackets = 0usize;
+        let mut start = 0;
+
+        for (i, c) in text.char_indices() {
+            if let Some(q) = quote {
+                if c == q {
+                    quote = None;
+                }
+                continue;
+            }
+            match c {
+                '"' | '\'' => quote = Some(c),
+                '[' => brackets += 1,
+                ']' => brackets = brackets.saturating_sub(1),
+                _ if c == separator && brackets == 0 => {
+                    parts.push(&text[start..i]);
+                    start = i + c.len_utf8();
+                }
+                _ => {}
+            }
+        }
+        parts.push(&text[start..]);
+
+        parts
+    }
+
     fn clean_text(&self, text: &str) -> String {
         text.lines()
             .map(|line| line.trim())
@@ -1520,8 +1551,9 @@ impl GRLParser {
     }
 
     fn parse_then_clause(&self, then_clause: &str) -> Result<Vec<ActionType>> {
-        let statements: Vec<&str> = then_clause
-            .split(';')
+        // a `;` inside a string literal is text, not a statement separator
+        let statements: Vec<&str> = Self::split_outside_literals(then_clause, ';')
+            .into_iter()
             .map(|s| s.trim())
             .filter(|s| !s.is_empty())
             .collect();
